@@ -63,9 +63,17 @@ func (b *backoff) wait() {
 func (b *backoff) durationForAttempt(attempt int) time.Duration {
 	b.setDefault()
 	expBackoff := math.Min(float64(b.Cap), float64(b.Base)*math.Pow(float64(b.Factor), float64(attempt)))
-	d := int(math.Trunc(expBackoff))
+	// time.Duration cannot hold more than MaxInt64 ns: saturate in the float domain, before any integer conversion.
+	const maxMs = float64(math.MaxInt64 / int64(time.Millisecond))
+	if expBackoff > maxMs {
+		expBackoff = maxMs
+	}
+	d := int64(expBackoff)
+	if d < 1 { // negative attempt number
+		return 0
+	}
 	if !b.NoJitter {
-		d = rand.Intn(d)
+		d = rand.Int63n(d)
 	}
 	return time.Duration(d) * time.Millisecond
 }
